@@ -385,6 +385,32 @@ Arguments e_multi_generic {sig}.
 Arguments e_multi_att {sig}.
 
 (* ------------------------------------------------------------------------------------------ *)
+(* Sessions: the requests made one after another (or at once) to ONE service instance.          *)
+(* service.go: every field of Service is assigned once, by New; no Sign* method and nothing in  *)
+(* helpers.go assigns a field of the service, and the package has no variable that they write   *)
+(* (only the logger, set by New): handling a request leaves the service as it found it.  The    *)
+(* domain provider is a node outside vouch: what it answers may differ from one request to the  *)
+(* next (it may be down for one and up for the next), so every request of a session comes with  *)
+(* the provider as it answers during that request.                                              *)
+
+Section Session.
+  Variable H : N -> N -> N.
+  Variable sig : Type.
+  Variable zero_sig : sig.
+  Variable E : env sig.
+
+  (* one request: its outcome and the service afterwards *)
+  Definition handle (Sv : service) (pq : provider * request) : res (list sig) * service :=
+    (run H sig zero_sig (fst pq) E Sv (snd pq), Sv).
+
+  Fixpoint run_session (Sv : service) (qs : list (provider * request)) : list (res (list sig)) :=
+    match qs with
+    | [] => []
+    | pq :: r => let (out, Sv') := handle Sv pq in out :: run_session Sv' r
+    end.
+End Session.
+
+(* ------------------------------------------------------------------------------------------ *)
 (* The specification side: the duty messages, and what the consensus / builder specs sign.      *)
 
 Inductive message :=
